@@ -269,6 +269,16 @@ class SymInt:
                 ot = z3.BitVecVal(o, W)
                 ctx().side.append(z3.And(z3.BVMulNoOverflow(self.t, ot, True), z3.BVMulNoUnderflow(self.t, ot)))
             return from_lin(r)
+        if isinstance(o, (SymInt, SymBool)):
+            (l1, h1), (l2, h2) = _interval(self.lin), _interval(lin_of(o))
+            if l1 is not None and l2 is not None:
+                ps = [l1 * l2, l1 * h2, h1 * l2, h1 * h2]
+                if _MIN <= min(ps) and max(ps) <= _MAX:
+                    # the declared input ranges already exclude overflow (80-bit BVMulNoOverflow is very hard for the solver);
+                    # the product inherits an interval so that later additions need no overflow query either
+                    r = self._bin(o, lambda a, b: a * b)
+                    declare_range(r.t, min(ps), max(ps))
+                    return SymInt(r.t)
         return self._bin(o, lambda a, b: a * b, lambda a, b: z3.And(z3.BVMulNoOverflow(a, b, True), z3.BVMulNoUnderflow(a, b)))
 
     __rmul__ = __mul__
@@ -327,11 +337,52 @@ class SymInt:
         k = self._shift_amount(o)
         return SymInt(self.t >> min(k, W - 1))  # z3 >> on BitVecRef is arithmetic == Python floor shift
 
-    def __floordiv__(self, o):
-        raise Unsupported("SymInt // x")
+    def _divmod_terms(self, o, swap=False):
+        """(a, b, truncated quotient, remainder with the dividend's sign); forks a ZeroDivisionError path"""
+        if not _liftable(o):
+            return None
+        a, b = (bv(o), self.t) if swap else (self.t, bv(o))
+        if ctx().decide(b == z3.BitVecVal(0, W)):
+            raise ZeroDivisionError("integer division or modulo by zero")
+        ctx().side.append(z3.Not(z3.And(a == z3.BitVecVal(_MIN, W), b == z3.BitVecVal(-1, W))))
+        return a, b, a / b, z3.SRem(a, b)     # z3: BitVecRef '/' is bvsdiv (truncating)
 
-    def __mod__(self, o):
-        raise Unsupported("SymInt % x")
+    def __floordiv__(self, o, swap=False):
+        r = self._divmod_terms(o, swap)
+        if r is None:
+            return NotImplemented
+        a, b, q, rem = r
+        z = z3.BitVecVal(0, W)
+        adjust = z3.And(rem != z, z3.Xor(a < z, b < z))     # Python floors: one less than truncation
+        res = z3.If(adjust, q - z3.BitVecVal(1, W), q)
+        _declare_quotient_range(res, o if swap else self)
+        return SymInt(res)
+
+    def __rfloordiv__(self, o):
+        return self.__floordiv__(o, swap=True)
+
+    def __mod__(self, o, swap=False):
+        r = self._divmod_terms(o, swap)
+        if r is None:
+            return NotImplemented
+        a, b, q, rem = r
+        z = z3.BitVecVal(0, W)
+        return SymInt(z3.If(z3.And(rem != z, z3.Xor(rem < z, b < z)), rem + b, rem))   # sign of the divisor
+
+    def __rmod__(self, o):
+        return self.__mod__(o, swap=True)
+
+    def __truediv__(self, o):
+        raise Unsupported("SymInt / x (float result)")
+
+    def __pow__(self, o):
+        raise Unsupported("SymInt ** x")
+
+    def __float__(self):
+        raise Unsupported("float(SymInt)")
+
+    def __abs__(self):
+        return ITE(self < 0, -self, self)
 
     # --- comparisons (signed) ---
     def _cmp(self, o, f, g):
@@ -420,6 +471,31 @@ def cdiff(a, b):
         return a - b
     d = _lin_add(lin_of(a), lin_of(b), -1)
     return d[0] if not d[1] else None
+
+
+def _declare_quotient_range(term, dividend):
+    """|a / b| <= |a| for b != 0 (floor adds at most one): lets later arithmetic skip overflow queries"""
+    lo, hi = _interval(lin_of(dividend))
+    if lo is not None:
+        m = max(abs(lo), abs(hi)) + 1
+        declare_range(term, -m, m)
+
+
+def tdiv(a, b):
+    """truncating (C/C++) integer division for harness oracles; b != 0 is the caller's assumption"""
+    if isinstance(a, int) and isinstance(b, int):
+        q = abs(a) // abs(b)
+        return q if (a < 0) == (b < 0) else -q
+    t = bv(a) / bv(b)
+    _declare_quotient_range(t, a)
+    return SymInt(t)
+
+
+def trem(a, b):
+    """remainder of the truncating division (sign of the dividend), for harness oracles"""
+    if isinstance(a, int) and isinstance(b, int):
+        return a - b * tdiv(a, b)
+    return SymInt(z3.SRem(bv(a), bv(b)))
 
 
 def iadd(a, b):
